@@ -30,7 +30,7 @@ import (
 type conn struct {
 	c       net.Conn
 	proto   ProtocolInfo
-	open    bool
+	closed  bool
 	options map[string]interface{}
 	maxrx   int
 	sync.Mutex
@@ -94,8 +94,10 @@ func (p *conn) Send(msg *Message) error {
 func (p *conn) Close() error {
 	p.Lock()
 	defer p.Unlock()
-	if p.open {
-		p.open = false
+	// Not only once open: a connection still shaking hands when its
+	// dialer or listener is closed has to go as well.
+	if !p.closed {
+		p.closed = true
 		return p.c.Close()
 	}
 	return nil
@@ -198,9 +200,6 @@ func (p *conn) handshake() error {
 		// it said nothing yet about the peer or the session.
 		p.options[mangos.OptionTLSConnState] = tc.ConnectionState()
 	}
-	p.Lock()
-	p.open = true
-	p.Unlock()
 	return nil
 }
 
